@@ -285,6 +285,30 @@ def compare(acc, doc, root_cert, tmpdir, label, case):
         ("report_data", val["sgx_quote"].report_body.report_data.field, quote[368:432]),
         ("tweak", gv[2], None),
     ]
+    # every named field of the quote, against numeric offsets of Intel's
+    # sgx_quote_t / sgx_report_body_t (little endian), written down independently
+    sq = val["sgx_quote"]
+    rb = sq.report_body
+
+    def le(off, n):
+        return int.from_bytes(quote[off:off + n], "little")
+    B = 48
+    checks += [
+        ("quote.version", sq.version, le(0, 2)), ("quote.sign_type", sq.sign_type, le(2, 2)),
+        ("quote.tee_type", sq.tee_type, le(4, 4)), ("quote.qe_svn", sq.qe_svn, le(8, 2)),
+        ("quote.pce_svn", sq.pce_svn, le(10, 2)), ("quote.uuid", sq.uuid, quote[12:28]),
+        ("quote.user_data", sq.user_data, quote[28:48]),
+        ("body.cpusvn", rb.cpusvn, quote[B:B + 16]),
+        ("body.miscselect", rb.miscselect, le(B + 16, 4)),
+        ("body.isvextprodid", rb.isvextprodid, quote[B + 32:B + 48]),
+        ("body.attributes.flags", rb.attributes.flags, le(B + 48, 8)),
+        ("body.attributes.xfrm", rb.attributes.xfrm, le(B + 56, 8)),
+        ("body.configid", rb.configid, quote[B + 192:B + 256]),
+        ("body.isvprodid", rb.isvprodid, le(B + 256, 2)),
+        ("body.isvsvn", rb.isvsvn, le(B + 258, 2)),
+        ("body.configsvn", rb.configsvn, le(B + 260, 2)),
+        ("body.isvfamilyid", rb.isvfamilyid, quote[B + 304:B + 320]),
+    ]
     for name, a, b in checks:
         acc.count("value_fields_compared")
         if a != b:
